@@ -56,6 +56,24 @@ CHECKS = {
         assumptions=['offline queueing/redelivery is unsupported by the library (README) and not asserted', 'one live connection per client identifier: the harness waits for teardown-done before reusing an id'],
         units=[dict(name="sequential", test="TestC10", checks=(800, 25000), shards=(4, 14), timeout=(240, 3000))]),
 
+    "C11": dict(
+        pkg="p_broker", level="exploration",
+        technique="enumerated product + rapid-generated mutants of first packets under three authenticators, each followed in the same write by effect-bearing packets; three-way classification by the reference codec",
+        level_text=("Every first packet (all packet types, all 256 connect-flag bytes, protocol name x level x client-id class x credentials x CleanSession, cut bodies, truncations followed by close or "
+                    "silence) is sent under an accepting, a rejecting and a user/password authenticator, followed in the same write by SUBSCRIBE '#', a retained PUBLISH and a QoS 1 PUBLISH. The reference "
+                    "codec classifies the packet as must-accept / must-refuse (with the admissible CONNACK codes) / either; the check asserts the CONNACK code, that a refused connection is closed by the "
+                    "broker, that nothing sent on it had any effect (in-process witness on '#', retained store, SessionPresent of a later CleanSession=0 connect with the same id) and that code 0 "
+                    "goes together with the later packets taking effect. The product is enumerated completely; mutants are sampled."),
+        level_note=("Trusted: harness/ref/codec (strict decode + documented id policy), the classification in c11_test.go: only malformations the specification makes a server refuse are 'must-refuse'; "
+                    "everything the decoder's 3.1 compatibility tolerates is 'either' (only consistency is asserted there)."),
+        rule=("unit enum: the enumerated product (one broker per case); unit random: rapid-generated CONNECT variants with 0-2 mutations; non-trivial = the first packet was not accepted and was "
+              "followed by effect-bearing packets; distinct = FNV-64 of the case JSON"),
+        assumptions=["ConnectTimeout is 1 s in the fixture", "client ids of 24-32 printable characters and inputs the 3.1-compatible decoder tolerates are accepted either way"],
+        units=[
+            dict(name="enum", test="TestC11Enum", kind="enum", shards=(4, 14)),
+            dict(name="random", test="TestC11Random", checks=(1500, 200000), shards=(4, 14), timeout=(240, 3000)),
+        ]),
+
     "C13": dict(
         pkg="p_ackq", level="exploration",
         technique="model-based property testing: small-scope exhaustive enumeration + rapid random histories against a list model",
